@@ -585,6 +585,8 @@ Theorem po_split_cover_refuted :
                       (forall S serve diff orig (s0 : S), r_log (patch_obj S serve diff true patch [] orig s0) = []).
 Proof.
   exists [("status", JNull)], [], None. repeat split.
+  intros S serve diff orig s0. unfold patch_obj. simpl. unfold po_merge_status, po_json_phase, po_as_json_patch.
+  cbn [a_patched]. destruct (po_fresh None orig) as [[]|]; reflexivity.
 Qed.
 
 (* ---------- which requests are sent when nothing goes wrong ---------- *)
@@ -630,3 +632,265 @@ Theorem po_wrong_object :
                 po_status_of new = Some (JObj [("handled-for", JStr "uid-1")]) /\
                 r_out r = Returned (Some new) None.
 Proof. cbv zeta. eexists _, _. vm_compute. repeat split. Qed.
+
+Lemma po_test_pass v x rest old :
+  jp_get old ["metadata"; "resourceVersion"] = Some x -> jeqb x v = true ->
+  apply_ops (po_test v :: rest) old = apply_ops rest old.
+Proof.
+  intros Hx Hj.
+  change (apply_ops (po_test v :: rest) old) with (obind (apply_op old (po_test v)) (apply_ops rest)).
+  unfold po_test, apply_op. rewrite po_rv_path_parse. cbn [obind]. rewrite Hx. cbn [obind]. rewrite Hj. reflexivity.
+Qed.
+
+(* ---------- completeness, no status subresource, nobody else writes ---------- *)
+Section Complete.
+  Variable rvs : nat -> json.
+  Variable post : json -> json -> json.
+  Variable slip : nat.
+  Variable foreign : option json -> option json.
+  Variable diff : json -> json -> list jop.
+  Hypothesis rvs_refl : forall n, jeqb (rvs n) (rvs n) = true.
+  Hypothesis diff_law : forall a b, apply_ops (diff a b) a = Some b.     (* the law of jsonpatch.from_diff (C18) *)
+
+  Theorem po_complete_nosub patch fns b0 c0 to_be :
+    patch <> [] -> slip <> 0 -> slip <> 1 ->
+    let obj0 := po_stamp (rvs c0) b0 in
+    let new1 := po_stamp (rvs (Datatypes.S c0)) (post obj0 (merge obj0 (JObj patch))) in
+    po_run_fns fns new1 = Ok to_be ->
+    let r := patch_obj po_world (po_wserve rvs post false slip foreign) diff false patch fns (Some obj0)
+                       (mkW (Some obj0) c0 0 []) in
+    let final := match fns, diff new1 to_be with
+                 | [], _ | _, [] => new1
+                 | _, _ => po_stamp (rvs (Datatypes.S (Datatypes.S c0))) (post new1 to_be)
+                 end in
+    w_obj (r_srv r) = Some final /\ r_out r = Returned (Some final) None /\ po_all_ok (r_log r) = true.
+  Proof.
+    intros Hp Hs0 Hs1 obj0 new1 Hrun. cbv zeta.
+    match goal with |- w_obj (r_srv ?r) = Some ?f /\ _ =>
+      cut (exists log w, r = mkRes (Returned (Some f) None) log w /\ w_obj w = Some f /\ po_all_ok log = true);
+      [intros (log & w & -> & Hw & Hl); repeat split; assumption|]
+    end.
+    destruct patch as [|kv p]; [contradiction|].
+    unfold patch_obj, po_split. unfold po_call at 1. cbn [a_srv a_log a_patched].
+    unfold po_wserve at 1. cbn [w_seen w_obj w_ctr w_hist].
+    destruct (Nat.eqb 0 slip) eqn:E0; [apply Nat.eqb_eq in E0; congruence|].
+    cbn [w_obj po_candidate rq_payload po_merge_req rq_url po_pick w_ctr w_seen w_hist].
+    fold obj0. fold new1.
+    unfold po_merge_status, po_json_phase. cbn [a_patched a_srv a_log].
+    assert (Ht : po_truthy new1 = true) by apply po_stamp_truthy.
+    assert (Hrv : po_rv_of (Some new1) = Ok (rvs (Datatypes.S c0))) by apply po_stamp_rv_of.
+    unfold po_fresh. rewrite !Ht.
+    destruct (po_stamp_shape (rvs (Datatypes.S c0)) (post obj0 (merge obj0 (JObj (kv :: p))))) as (kvs & m & Hshape & _).
+    fold new1 in Hshape.
+    unfold po_as_json_patch. rewrite Hshape. rewrite <- Hshape.
+    destruct fns as [|f fns'].
+    - eexists _, _. split; [reflexivity|]. split; reflexivity.
+    - rewrite Hrun. cbn [bind]. unfold po_body_ops at 1. unfold po_body_ops at 1.
+      destruct (diff new1 to_be) as [|o l] eqn:Ed.
+      + eexists _, _. split; [reflexivity|]. split; reflexivity.
+      + rewrite Hrv.
+        unfold po_call at 1. cbn [a_srv a_log a_patched].
+        unfold po_wserve at 1. cbn [w_seen w_obj w_ctr w_hist].
+        destruct (Nat.eqb 1 slip) eqn:E1; [apply Nat.eqb_eq in E1; congruence|].
+        cbn [w_obj po_candidate rq_payload po_json_req rq_url po_pick w_ctr w_seen w_hist].
+        rewrite (po_test_pass _ (rvs (Datatypes.S c0))); [| unfold new1; apply po_stamp_get | apply rvs_refl].
+        rewrite <- Ed, diff_law.
+        eexists _, _. split; [reflexivity|]. split; reflexivity.
+  Qed.
+End Complete.
+
+
+(* ---------- partial: a write lands on the object it was computed for as long as the uid behind the name is stable ---------- *)
+Lemma po_lookup_set_other {V} k k' (v : V) l : String.eqb k k' = false -> lookup k (set k' v l) = lookup k l.
+Proof.
+  intros Hk. induction l as [|[k2 v2] l IH]; simpl.
+  - rewrite Hk. reflexivity.
+  - destruct (String.eqb k' k2) eqn:E2; simpl.
+    + apply String.eqb_eq in E2. subst k2. rewrite Hk. reflexivity.
+    + destruct (String.eqb k k2); [reflexivity | exact IH].
+Qed.
+
+Lemma po_stamp_uid v b : po_uid_field b <> None -> po_uid_field (po_stamp v b) = po_uid_field b.
+Proof.
+  unfold po_uid_field, po_meta_field, po_stamp, po_set_meta. destruct b; try (intros H; contradiction).
+  rewrite po_lookup_set_same. rewrite po_lookup_set_other by reflexivity.
+  destruct (lookup "metadata" kvs) as [[]|]; try (intros H; contradiction). reflexivity.
+Qed.
+
+Section SameObject.
+  Variable rvs : nat -> json.
+  Variable post : json -> json -> json.
+  Variable has_sub : bool.
+  Variable slip : nat.
+  Variable foreign : option json -> option json.
+  Variable diff : json -> json -> list jop.
+  Variable uid : json.
+  (* the API server never changes the uid of an object; the other writer does not replace the object by another one *)
+  Hypothesis post_uid : forall old cand, po_uid_field old = Some uid -> po_uid_field (post old cand) = Some uid.
+  Hypothesis foreign_uid : forall o o', (forall x, o = Some x -> po_uid_field x = Some uid) -> foreign o = Some o' ->
+                                        po_uid_field o' = Some uid.
+
+  Notation wserve := (po_wserve rvs post has_sub slip foreign).
+
+  Definition po_uid_inv (w : po_world) : Prop := forall o, w_obj w = Some o -> po_uid_field o = Some uid.
+
+  Lemma po_uid_step w q resp w' :
+    po_uid_inv w -> wserve w q = (resp, w') ->
+    po_uid_inv w' /\ (forall new, resp = ROk new -> po_uid_field new = Some uid).
+  Proof.
+    intros Hi E. unfold po_wserve in E.
+    set (w1 := if Nat.eqb (w_seen w) slip then po_wforeign rvs foreign w else w) in *.
+    assert (H1 : po_uid_inv w1).
+    { subst w1. destruct (Nat.eqb (w_seen w) slip); [|exact Hi]. unfold po_wforeign.
+      destruct (foreign (w_obj w)) as [o'|] eqn:Ef; intros x Hx; simpl in Hx; [|discriminate].
+      injection Hx as <-. pose proof (foreign_uid _ _ Hi Ef) as Hu. rewrite po_stamp_uid; [exact Hu | rewrite Hu; discriminate]. }
+    destruct (w_obj w1) as [old|] eqn:Eo.
+    - destruct (po_candidate old (rq_payload q)) as [cand|]; injection E as <- <-.
+      + assert (Hn : po_uid_field (po_stamp (rvs (Datatypes.S (w_ctr w1))) (post old (po_pick has_sub (rq_url q) old cand))) = Some uid).
+        { pose proof (post_uid old (po_pick has_sub (rq_url q) old cand) (H1 _ Eo)) as Hu.
+          rewrite po_stamp_uid; [exact Hu | rewrite Hu; discriminate]. }
+        split; [intros x Hx; simpl in Hx; injection Hx as <-; exact Hn | intros new Hr; injection Hr as <-; exact Hn].
+      + split; [intros x Hx; simpl in Hx; injection Hx as <-; apply H1; exact Eo | intros new Hr; discriminate].
+    - injection E as <- <-. split; [intros x Hx; discriminate | intros new Hr; discriminate].
+  Qed.
+
+  Lemma po_uid_replay qs : forall w rs w',
+    po_uid_inv w -> po_replay wserve w qs = (rs, w') ->
+    po_uid_inv w' /\ forall new, In (ROk new) rs -> po_uid_field new = Some uid.
+  Proof.
+    induction qs as [|q qs IH]; intros w rs w' Hi E; simpl in E.
+    - injection E as <- <-. split; [exact Hi | intros new []].
+    - destruct (wserve w q) as [r s1] eqn:E1. destruct (po_replay wserve s1 qs) as [rs' s2] eqn:E2.
+      injection E as <- <-. destruct (po_uid_step _ _ _ _ Hi E1) as [Hi1 Hr1].
+      destruct (IH _ _ _ Hi1 E2) as [Hi2 Hr2]. split; [exact Hi2|].
+      intros new [Hn|Hn]; [apply Hr1; exact Hn | apply Hr2; exact Hn].
+  Qed.
+
+  Theorem po_same_object patch fns orig obj0 c0 :
+    po_uid_field obj0 = Some uid ->
+    let r := patch_obj po_world wserve diff has_sub patch fns orig (mkW (Some obj0) c0 0 []) in
+    (forall q new, In (q, ROk new) (r_log r) -> po_uid_field new = Some uid) /\
+    (forall o, w_obj (r_srv r) = Some o -> po_uid_field o = Some uid).
+  Proof.
+    intros Hu r.
+    pose proof (po_log_replay po_world wserve diff has_sub patch fns orig (mkW (Some obj0) c0 0 [])) as Hrep.
+    unfold res_ok in Hrep. fold r in Hrep.
+    assert (Hi0 : po_uid_inv (mkW (Some obj0) c0 0 [])). { intros o Ho. simpl in Ho. injection Ho as <-. exact Hu. }
+    destruct (po_uid_replay _ _ _ _ Hi0 Hrep) as [Hi Hr]. split; [|exact Hi].
+    intros q new Hin. apply Hr. change (ROk new) with (snd (q, ROk new)). apply in_map. exact Hin.
+  Qed.
+End SameObject.
+
+(* ---------- non-vacuity: the hypotheses about the server are satisfiable ---------- *)
+Example po_ex_rvs_refl : forall n, jeqb (po_ex_rvs n) (po_ex_rvs n) = true.
+Proof. intros n. simpl. apply Z.eqb_refl. Qed.
+
+Example po_ex_diff_law : forall a b, apply_ops (po_ex_diff a b) a = Some b.
+Proof. intros a b. reflexivity. Qed.
+
+(* a full run with all four requests against the stateful server: accepted, complete *)
+Definition po_ex_fns : list pfn :=
+  [mkFn 0 (po_fn_add2 "metadata" "finalizers" (JStr "fin")); mkFn 1 (po_fn_set2 "status" "y" (JNum 2))].
+Definition po_ex_realdiff (a b : json) : list jop :=
+  [OAdd "/metadata/finalizers" (JList [JStr "fin"]); OAdd "/status/y" (JNum 2)].
+
+Example po_ex_four_requests :
+  let obj0 := po_stamp (po_ex_rvs 0) (po_ex_obj "uid-1") in
+  let r := patch_obj po_world (po_wserve po_ex_rvs (fun _ c => c) true 9 (fun o => o)) po_ex_realdiff true
+                     [("spec", JObj [("b", JNum 2)]); ("status", JObj [("s", JNum 1)])] po_ex_fns (Some obj0)
+                     (mkW (Some obj0) 0 0 []) in
+  map po_slot (map fst (r_log r)) = [0; 1; 2; 3]%nat /\ po_all_ok (r_log r) = true /\
+  exists final, r_out r = Returned (Some final) None /\ w_obj (r_srv r) = Some final /\
+                jp_get final ["metadata"; "finalizers"] = Some (JList [JStr "fin"]) /\
+                jp_get final ["status"] = Some (JObj [("s", JNum 1); ("y", JNum 2)]) /\
+                jp_get final ["spec"; "b"] = Some (JNum 2).
+Proof. cbv zeta. split; [vm_compute; reflexivity|]. split; [vm_compute; reflexivity|]. eexists. vm_compute. repeat split. Qed.
+
+(* the same run with a foreign write slipped in before the JSON batch: rejected, nothing written, fns carried *)
+Example po_ex_conflict :
+  let obj0 := po_stamp (po_ex_rvs 0) (po_ex_obj "uid-1") in
+  let edit := fun o => match o with Some b => Some (po_set_meta "foreign" (JStr "w") b) | None => None end in
+  let r := patch_obj po_world (po_wserve po_ex_rvs (fun _ c => c) true 2 edit) po_ex_realdiff true
+                     [("spec", JObj [("b", JNum 2)]); ("status", JObj [("s", JNum 1)])] po_ex_fns (Some obj0)
+                     (mkW (Some obj0) 0 0 []) in
+  map po_slot (map fst (r_log r)) = [0; 1; 2]%nat /\
+  (exists b, r_out r = Returned (Some b) (Some po_ex_fns)) /\
+  exists final, w_obj (r_srv r) = Some final /\ jp_get final ["metadata"; "finalizers"] = None /\
+                jp_get final ["metadata"; "foreign"] = Some (JStr "w").
+Proof. cbv zeta. split; [vm_compute; reflexivity|]. split; eexists; vm_compute; repeat split. Qed.
+
+(* ---------- application.apply: patch / sleep / touch ---------- *)
+Section ApplyDecision.
+  Variable S : Type.
+  Variable serve : S -> po_req -> po_resp * S.
+  Variable diff : json -> json -> list jop.
+
+  Theorem po_apply_decision has_sub patch0 clear fns orig delays woken touch_patch s0 r :
+    po_apply S serve diff has_sub patch0 clear fns orig delays woken touch_patch s0 = ApOk r ->
+    let p := po_patch_truthy patch0 fns in
+    (ap_applied r = true <-> (p = false /\ po_min delays = None)) /\
+    (ap_slept r <> None -> p = false) /\
+    (ap_touched r = true -> p = false /\ exists d, po_min delays = Some d /\ (woken = false \/ (d <= 0)%Z)) /\
+    (p = false -> po_min delays <> None -> ap_touched r = true \/ (woken = true /\ ap_slept r <> None)).
+  Proof.
+    unfold po_apply. set (p := po_patch_truthy patch0 fns).
+    destruct (po_patch_and_check S serve diff has_sub (if p then clear patch0 else patch0) fns orig s0) as [rv rem log s|]; [|discriminate].
+    destruct (po_min delays) as [d|].
+    - destruct p; cbn [andb orb negb].
+      + destruct (Z.eqb d 0) eqn:Ed; cbn [negb andb orb].
+        * apply Z.eqb_eq in Ed. subst d. cbn.
+          intros H; injection H as <-; cbn. repeat split; try (intros; discriminate); try (intros [? ?]; discriminate); intros; congruence.
+        * intros H; injection H as <-; cbn. repeat split; try (intros; discriminate); try (intros [? ?]; discriminate); intros; congruence.
+      + rewrite Bool.andb_false_r. cbn [andb orb]. destruct (Z.ltb po_keepalive d) eqn:E1; [|destruct (Z.ltb 0 d) eqn:E2].
+        * destruct woken; cbn [andb orb].
+          -- intros H; injection H as <-; cbn. repeat split; try (intros; discriminate); try (intros [? ?]; discriminate).
+             intros _ _. right. split; [reflexivity | discriminate].
+          -- destruct (po_patch_and_check S serve diff has_sub touch_patch [] None s) as [rv2 rem2 log2 s2|]; [|discriminate].
+             intros H; injection H as <-; cbn. repeat split; try (intros; discriminate); try (intros [? ?]; discriminate).
+             ++ exists d. split; [reflexivity | left; reflexivity].
+             ++ intros _ _. left; reflexivity.
+        * destruct woken; cbn [andb orb].
+          -- intros H; injection H as <-; cbn. repeat split; try (intros; discriminate); try (intros [? ?]; discriminate).
+             intros _ _. right. split; [reflexivity | discriminate].
+          -- destruct (po_patch_and_check S serve diff has_sub touch_patch [] None s) as [rv2 rem2 log2 s2|]; [|discriminate].
+             intros H; injection H as <-; cbn. repeat split; try (intros; discriminate); try (intros [? ?]; discriminate).
+             ++ exists d. split; [reflexivity | left; reflexivity].
+             ++ intros _ _. left; reflexivity.
+        * cbn [andb orb].
+          destruct (po_patch_and_check S serve diff has_sub touch_patch [] None s) as [rv2 rem2 log2 s2|]; [|discriminate].
+          intros H; injection H as <-; cbn. repeat split; try (intros; discriminate); try (intros [? ?]; discriminate).
+          -- exists d. split; [reflexivity | right; apply Z.ltb_ge; exact E2].
+          -- intros _ _. left; reflexivity.
+    - intros H; injection H as <-; cbn. destruct p; cbn; repeat split; try (intros; discriminate); try (intros [? ?]; discriminate);
+        try (intros; congruence); try reflexivity.
+  Qed.
+End ApplyDecision.
+
+(* ---------- the named corollaries ---------- *)
+Section Corollaries.
+  Variable S : Type.
+  Variable serve : S -> po_req -> po_resp * S.
+  Variable diff : json -> json -> list jop.
+
+  Corollary po_404_silent has_sub patch fns orig s0 :
+    let r := patch_obj S serve diff has_sub patch fns orig s0 in
+    forall q, In (q, RNotFound) (r_log r) ->
+              r_out r = Returned None None /\ po_stops (r_log r) = true.
+  Proof.
+    intros r q H. destruct (po_outcome_thm S serve diff has_sub patch fns orig s0) as (Hs & H404 & _).
+    split; [apply (H404 q H) | exact Hs].
+  Qed.
+
+  Corollary po_fns_carried has_sub patch fns orig s0 :
+    let r := patch_obj S serve diff has_sub patch fns orig s0 in
+    (forall q, In (q, RUnprocessable) (r_log r) -> po_is_json q = true ->
+               r_out r = Returned (po_last_ok (r_log r)) (Some fns) /\ po_stops (r_log r) = true) /\
+    (forall b rem, r_out r = Returned b (Some rem) ->
+                   rem = fns /\ exists pre q, r_log r = pre ++ [(q, RUnprocessable)] /\ po_is_json q = true) /\
+    (po_all_ok (r_log r) = true -> forall b rem, r_out r = Returned b rem -> rem = None).
+  Proof.
+    intros r. destruct (po_outcome_thm S serve diff has_sub patch fns orig s0) as (Hs & _ & H422 & _ & _ & Hrem & Hok).
+    split; [intros q H Hj; split; [apply (H422 q H Hj) | exact Hs]|]. split; [exact Hrem|].
+    intros Ha b rem Hr. apply (Hok Ha b rem Hr).
+  Qed.
+End Corollaries.
